@@ -13,6 +13,27 @@ struct Dom {
     root: usize,
     split_bits: usize,
     split_val: usize,
+    /// if non-zero: only a seeded subset of `free` arcs may exist (all others asserted absent)
+    sparse_seed: u64,
+    free: usize,
+}
+impl Dom {
+    fn free_arcs(&self) -> Option<Vec<(usize, usize)>> {
+        if self.sparse_seed == 0 {
+            return None;
+        }
+        let mut all: Vec<(usize, usize)> = vec![];
+        for i in 0..self.n {
+            for j in 0..self.n {
+                if i != j {
+                    all.push((i, j));
+                }
+            }
+        }
+        Rng::new(self.sparse_seed).shuffle(&mut all);
+        all.truncate(self.free);
+        Some(all)
+    }
 }
 struct Art {
     ids: Vec<usize>,
@@ -42,10 +63,13 @@ fn iff_check(name: &str, got: bool, spec: &str, detail: &str) -> bool {
 
 impl Harness for Dom {
     fn name(&self) -> String {
-        format!("dominators/n{}/root{}/part{}of{}", self.n, self.root, self.split_val, 1usize << self.split_bits)
+        format!("dominators/n{}/root{}/part{}of{}{}", self.n, self.root, self.split_val, 1usize << self.split_bits, if self.sparse_seed != 0 { format!("/sparse{}x{}", self.sparse_seed, self.free) } else { String::new() })
     }
     fn bounds(&self) -> String {
-        format!("directed SymGraph n={} with self-loops, adjacency symbolic (only the part reachable from the root is read)", self.n)
+        match self.free_arcs() {
+            None => format!("directed SymGraph n={} with self-loops, adjacency symbolic (only the part reachable from the root is read)", self.n),
+            Some(f) => format!("directed SymGraph n={}, only the {} seeded arcs {:?} may exist (symbolic), all others absent", self.n, f.len(), f),
+        }
     }
     fn run(&self, cfg: &Config) -> Stats {
         let n = self.n;
@@ -53,8 +77,17 @@ impl Harness for Dom {
         explore(
             cfg,
             || {
-                let g = SymGraph::<(), Directed>::new("a", n, true);
+                let g = SymGraph::<(), Directed>::new("a", n, self.sparse_seed == 0);
                 pin(&g, self.split_bits, self.split_val);
+                if let Some(free) = self.free_arcs() {
+                    for i in 0..n {
+                        for j in 0..n {
+                            if i != j && !free.contains(&(i, j)) {
+                                assume(&not(&g.var(i, j)));
+                            }
+                        }
+                    }
+                }
                 let a = g.matrix();
                 let r = reach_closure("R", &a, None);
                 let rm: Vec<Vec<Vec<String>>> = (0..n).map(|x| reach_closure(&format!("Rm{}", x), &a, Some(x))).collect();
@@ -293,15 +326,19 @@ impl Harness for Art {
     }
 }
 
-fn make(tier: &str, _seed: u64) -> Vec<Box<dyn Harness>> {
+fn make(tier: &str, seed: u64) -> Vec<Box<dyn Harness>> {
     let thorough = tier == "thorough";
     let mut v: Vec<Box<dyn Harness>> = vec![];
+    // 5-node sparse families: 14 seeded free arcs each (16384 graphs), fixpoints needing >2 passes live here
+    for k in 0..(if thorough { 48 } else { 12 }) {
+        v.push(Box::new(Dom { n: 5, root: (k % 5) as usize, split_bits: 0, split_val: 0, sparse_seed: seed * 100 + k + 1, free: 14 }));
+    }
     for root in 0..3 {
-        v.push(Box::new(Dom { n: 3, root, split_bits: 0, split_val: 0 }));
+        v.push(Box::new(Dom { n: 3, root, split_bits: 0, split_val: 0, sparse_seed: 0, free: 0 }));
     }
     for root in 0..4 {
         for val in 0..16 {
-            v.push(Box::new(Dom { n: 4, root, split_bits: 4, split_val: val }));
+            v.push(Box::new(Dom { n: 4, root, split_bits: 4, split_val: val, sparse_seed: 0, free: 0 }));
         }
     }
     let mut adda = |ids: Vec<usize>, loops: bool, split_bits: usize| {
@@ -316,8 +353,8 @@ fn make(tier: &str, _seed: u64) -> Vec<Box<dyn Harness>> {
         adda(vec![0, 1, 2, 3, 4], true, 5);
         adda(vec![0, 1, 2, 3, 4, 5], false, 9);
         for val in 0..256 {
-            v.push(Box::new(Dom { n: 5, root: 0, split_bits: 8, split_val: val }));
-            v.push(Box::new(Dom { n: 5, root: 3, split_bits: 8, split_val: val }));
+            v.push(Box::new(Dom { n: 5, root: 0, split_bits: 8, split_val: val, sparse_seed: 0, free: 0 }));
+            v.push(Box::new(Dom { n: 5, root: 3, split_bits: 8, split_val: val, sparse_seed: 0, free: 0 }));
         }
     }
     v
